@@ -161,10 +161,21 @@ func (p *Program) closeOverContracts(cfg Config, initial []UnitSpec) []*UnitResu
 			if fn == nil {
 				continue
 			}
-			if ct := p.ContractOf(fn); ct != nil && ct.Trusted {
+			ct := p.ContractOf(fn)
+			if ct != nil && ct.Trusted {
 				continue
 			}
 			queue = append(queue, UnitSpec{Fn: fn, Opt: Options{UseRequires: true, CheckPosts: true}, Why: "dependency", Kind: "function"})
+			// clauses discharged by lemmas: the lemmas join the run
+			if ct != nil && fn.Pkg != nil {
+				for _, cl := range ct.Ensures {
+					if cl.ByLemma != "" {
+						if lf := fn.Pkg.Func("gvcL_" + cl.ByLemma); lf != nil {
+							queue = append(queue, UnitSpec{Fn: lf, Opt: Options{}, Why: "lemma-backed clause", Kind: "lemma"})
+						}
+					}
+				}
+			}
 		}
 	}
 	return all
